@@ -493,7 +493,9 @@ def run_case(case):
     files_changed = dict(w.file_store.files) != files0
 
     login = is_login_redirect(status, location)
-    refused = status in (401, 403, 404) or login
+    # "every other caller gets an error": any 4xx / 5xx answer (a handler that raises is a 500) or the login redirect
+    refused = login or exc_name is not None or (status is not None and status >= 400)
+    out['refusal'] = 'login-redirect' if login else ('401/403/404' if status in (401, 403, 404) else 'other-error' if refused else None)
     auth_refusal = status == 401 or login or (status in (403, 404) and (reason is None or reason == DEFAULT_REASONS[status])) \
         or (status == 403 and reason and 'inactive' in str(reason).lower())
     out.update(status=status if exc_name is None else f'exception:{exc_name}', login_redirect=login, changed=changed,
